@@ -112,6 +112,7 @@ BUILTIN_EXC = {
     "Exception": "BaseException",
     "CancelledError": "BaseException",          # asyncio.CancelledError / anyio cancellation
     "KeyboardInterrupt": "BaseException",
+    "SystemExit": "BaseException",
     "GeneratorExit": "BaseException",
     "BaseExceptionGroup": "BaseException",
     "ArithmeticError": "Exception",
